@@ -268,11 +268,14 @@ func runPeer(rec *Rec, sc *PeerScenario, n int) {
 		case "establish":
 			sl := &peerSlot{path: st.Path, tried: true}
 			slots[st.Slot] = sl
-			sh.arm(st.Slot, st.Sv == "reject")
+			sh.arm(st.Slot, st.Sv == "reject" || st.Sv == "idreject")
 			ch.arm(st.Slot, st.Cv == "reject")
 			customID := fmt.Sprintf("custom-%d-%d", n, st.Slot)
 			if st.Sv == "panic" || st.Sv == "idmod" {
 				sh.armMode(st.Sv, customID)
+			}
+			if st.Sv == "idreject" {
+				sh.armMode("idmod", customID) // the id is assigned, the connection wrapped, and then the verdict is a rejection
 			}
 			srvOK := st.Sv == "ok" || st.Sv == "idmod"
 			cname := fmt.Sprintf("PC%d.%d", n, st.Slot)
@@ -296,8 +299,8 @@ func runPeer(rec *Rec, sc *PeerScenario, n int) {
 				}
 			}
 			// wait for what the two verdicts lead to (bounded; whatever is observed afterwards is recorded)
-			if st.Sv == "idmod" {
-				sl.cname = customID // the id the server side lists the session under
+			if st.Sv == "idmod" || st.Sv == "idreject" {
+				sl.cname = customID // the id the server side lists the session under (or must not list it under)
 			}
 			if srvOK && st.Cv == "ok" {
 				WaitUntil(5*time.Second, func() bool {
